@@ -83,7 +83,10 @@ class Scratch:
             if B is not None:
                 t, k = re.subn(r"\b64\s*\*\s*1024\b|\b65536\b", "(%d)" % B, t)
                 n += k
-            for rx, rp in subst:
+            for rule in subst:
+                rx, rp = rule[0], rule[1]
+                if len(rule) > 2 and rule[2] != f:
+                    continue        # rule restricted to one file
                 t, k = re.subn(rx, rp, t)
                 n += k
             open(os.path.join(dst, f), "w", encoding="latin-1").write(t)
